@@ -157,6 +157,7 @@ def contract(file, qualname, serves=()):
 
 
 GHOST_SCHEMA = {}     # name -> Spec, filled by spec modules
+GHOST_LOCAL = set()   # ghost variables changed only by one external (never havocked by contract application)
 
 
 # ------------------------------------------------------------------------------ clause evaluation
@@ -387,10 +388,18 @@ class Verifier:
             if isinstance(v, JVal) and v.oid is not None and not st.cell(v.oid):
                 out[k] = JVal(v.term, None)
             elif isinstance(v, Obj) and v.oid in st.heap:
-                out[k] = Obj(v.cls, st.alloc(dict(st.fields(v))))      # snapshot of the fields at entry
+                out[k] = self.snapshot(st, v, 3)                      # snapshot of the fields at entry
             else:
                 out[k] = v
         return out
+
+    def snapshot(self, st, obj, depth):
+        flds = dict(st.fields(obj))
+        if depth > 0:
+            for fk, fv in flds.items():
+                if isinstance(fv, Obj) and fv.oid in st.heap:
+                    flds[fk] = self.snapshot(st, fv, depth - 1)
+        return Obj(obj.cls, st.alloc(flds))
 
     def ghost_view(self, st):
         return Opaque("ghost", dict(st.ghost))
@@ -703,7 +712,7 @@ class Verifier:
             yield o
 
     def havoc_ghost(self, st, cls):
-        names = cls.ghost_frame if cls.ghost_frame is not None else list(self.ghost_schema)
+        names = cls.ghost_frame if cls.ghost_frame is not None else [n for n in self.ghost_schema if n not in GHOST_LOCAL]
         for name in names:
             (s, v), = list(self.make(st, self.ghost_schema[name], "g." + name))
             st.ghost[name] = v
